@@ -448,6 +448,48 @@ fn normalizer_oracle(t: &GTree, start_path: &[usize], params: &[Params], sink: &
             a.show(|s| format!("ok {}", enc(s))),
         );
         sink.stat(&format!("normalizer.request.{}", a.kind()));
+        // the Write-based entry point, called directly (the string variant goes through it into a Vec):
+        // a correspondence line with the bytes delivered (also on an error), and two oracles on the
+        // implementation — the bytes are the string variant's, and a sink that accepts a few bytes
+        // per write() call receives the same bytes
+        {
+            let mut buf = Vec::new();
+            let w = res_of(guarded(|| xa.serialize_xml_write_with_normalizer(p.xml_params(&va), na[idx], &mut buf, FullwidthNormalizer)));
+            let written = String::from_utf8_lossy(&buf).to_string();
+            sink.emit(
+                format!("ser xml_write_norm {} {} {}", p.wire(), path_str(start_path), tf.wire()),
+                format!("{} {}", w.show(|_| "ok".to_string()), enc(&written)),
+            );
+            sink.stat(&format!("normalizer.write-request.{}", w.kind()));
+            let fail_norm = |sink: &mut Sink, sig: &str, what: String| {
+                sink.stat(&format!("oracle.fail.{}", sig));
+                println!(
+                    "F\tC16\t{{\"signature\": \"{}\", \"what\": {}, \"replay\": {{\"suite\": \"ser\", \"tree\": {}, \"start\": {}, \"params\": {}}}}}",
+                    sig,
+                    ser_oracle::json_str(&what),
+                    ser_oracle::json_str(&tf.wire()),
+                    ser_oracle::json_str(&path_str(start_path)),
+                    ser_oracle::json_str(&p.wire())
+                );
+            };
+            match (&a, &w) {
+                (Res::Ok(s), Res::Ok(())) if *s == written => sink.stat("oracle.C16.write_with_normalizer-equals-string_with_normalizer"),
+                (Res::Ok(s), Res::Ok(())) => fail_norm(sink, "C16:write_with_normalizer-differs-from-string_with_normalizer", format!("serialize_xml_write_with_normalizer wrote {}, serialize_xml_string_with_normalizer gives {}", ser_oracle::short(&written), ser_oracle::short(s))),
+                _ if a.kind() == w.kind() && a.show(|_| String::new()) == w.show(|_| String::new()) => sink.stat("oracle.C16.write_with_normalizer-same-refusal"),
+                _ => fail_norm(sink, "C16:write_with_normalizer-outcome-differs-from-string_with_normalizer", format!("write: {}, string: {}", w.show(|_| "ok".to_string()), a.show(|_| "ok".to_string()))),
+            }
+            let mut cw = crate::common::ChunkWriter::new(1 + buf.len() % 4);
+            let w2 = res_of(guarded(|| xa.serialize_xml_write_with_normalizer(p.xml_params(&va), na[idx], &mut cw, FullwidthNormalizer)));
+            if let (Res::Ok(()), Res::Ok(())) = (&w, &w2) {
+                if cw.data != buf {
+                    fail_norm(sink, "C16:write-loses-bytes-on-short-writing-sink", format!("serialize_xml_write_with_normalizer into a sink accepting {} byte(s) per call delivered {} of {} bytes", cw.max, cw.data.len(), buf.len()));
+                } else {
+                    sink.stat("oracle.C16.write_with_normalizer-short-writing-sink-equal");
+                }
+            } else if w.kind() != w2.kind() {
+                fail_norm(sink, "C16:write-outcome-depends-on-sink", format!("Vec sink: {}, chunked sink: {}", w.kind(), w2.kind()));
+            }
+        }
         let b = res_of(guarded(|| xb.serialize_xml_string(p.xml_params(&vb), nb[idx])));
         let same = match (&a, &b) {
             (Res::Ok(x), Res::Ok(y)) => x == y,
@@ -609,6 +651,9 @@ fn normalizer_boundary(sink: &mut Sink) {
         for p in &params {
             let r = res_of(guarded(|| xot.serialize_xml_string_with_normalizer(p.xml_params(&v), root, FullwidthNormalizer)));
             sink.emit(format!("ser xml_string_norm {} . {}", p.wire(), t.wire()), r.show(|s| format!("ok {}", enc(s))));
+            let mut buf = Vec::new();
+            let w = res_of(guarded(|| xot.serialize_xml_write_with_normalizer(p.xml_params(&v), root, &mut buf, FullwidthNormalizer)));
+            sink.emit(format!("ser xml_write_norm {} . {}", p.wire(), t.wire()), format!("{} {}", w.show(|_| "ok".to_string()), enc(&String::from_utf8_lossy(&buf))));
             sink.stat("normalizer.boundary.namespace-uri");
         }
     }
